@@ -7,6 +7,10 @@ Open Scope N_scope.
 Theorem C19_check_sound : forall i o, check_C19 i o = true -> C19_holds i o.
 Proof. exact check_sound. Qed.
 Print Assumptions C19_check_sound.
+(* ---- decider completeness: the decider rejects nothing that satisfies the property *)
+Theorem C19_check_complete : forall i o, C19_holds i o -> check_C19 i o = true.
+Proof. exact check_complete. Qed.
+Print Assumptions C19_check_complete.
 
 (* ---- main theorem: for every well-formed tree and every configuration the model satisfies the property (ids each once and nothing else,
         duplicate ids reported k-1 times, errors exactly when a revision file cannot be imported / bad separator) *)
@@ -34,6 +38,7 @@ Theorem C19_nothing_else : forall T sl rec ps ob,
 Proof. exact nothing_else. Qed.
 Print Assumptions C19_nothing_else.
 
+Definition R (rid tag:N) : option N := Some (mkcode rid tag).   (* a module defining revision = rid, identified by tag *)
 Definition s_x_txt : str := [120;46;116;120;116].                                              (* x.txt *)
 Definition s_x_cache : str := [120;46;99;112;121;116;104;111;110;45;51;49;50;46;112;121;99].   (* x.cpython-312.pyc *)
 Definition s_x_pyo : str := [120;46;112;121;111].
@@ -72,6 +77,55 @@ Theorem C19_dedupe : forall T sl rec ps ps2 ob ob',
 Proof. exact dedupe_locations. Qed.
 Print Assumptions C19_dedupe.
 
+(* ---- the result is a function of the SET of listed files: for ANY order in which the listed paths are met (any
+        permutation of the listing of a tree) the Scripts, the warnings and the error status are the same, and so is
+        the revision map as long as no revision id is defined twice *)
+Theorem C19_order_invariant : forall T sl L L',
+  wf_tree T = true -> incl L (all_entries T) -> Permutation L L' ->
+  obs_equiv (load_listing T sl L) (load_listing T sl L').
+Proof. intros T sl L L' H. apply order_invariant. apply wf_tree_good; auto. Qed.
+Print Assumptions C19_order_invariant.
+Theorem C19_location_order_invariant : forall T sl rec ps ps',
+  wf_tree T = true -> Permutation ps ps' ->
+  obs_equiv (load_from T sl rec (flat_map (resolve_loc T) ps)) (load_from T sl rec (flat_map (resolve_loc T) ps')).
+Proof. exact location_order_invariant. Qed.
+Print Assumptions C19_location_order_invariant.
+
+(* with a revision id defined twice the map is NOT a function of the set of files: version_locations "v1 v2" and
+   "v2 v1" (same files, same warning) leave different Scripts in the map.  Replayed on the real ScriptDirectory by the
+   two corpus cases map-order-v1v2 / map-order-v2v1 (exact correspondence includes the map). *)
+Definition s_v2 : str := [118;50].
+Definition T_twice : node :=
+  Dir [(s_sd, Dir []); (s_v1, Dir [(s_a_py, File (R 7 1))]); (s_v2, Dir [([98;46;112;121], File (R 7 2))])].
+Theorem C19_map_order_refuted : exists T ps ps' a b,
+  wf_tree T = true /\ Permutation ps ps' /\
+  load_from T false false (flat_map (resolve_loc T) ps) = Ok a /\
+  load_from T false false (flat_map (resolve_loc T) ps') = Ok b /\
+  Permutation (o_ids a) (o_ids b) /\ o_dups a = [7] /\ o_dups b = [7] /\ ~ Permutation (o_map a) (o_map b).
+Proof. exists T_twice, [Some [s_v1]; Some [s_v2]], [Some [s_v2]; Some [s_v1]],
+         (mkObs [mkcode 7 1; mkcode 7 2] 0 [7] [mkcode 7 2]), (mkObs [mkcode 7 2; mkcode 7 1] 0 [7] [mkcode 7 1]).
+  repeat split; try (vm_compute; reflexivity).
+  - apply perm_swap.
+  - cbn [o_ids]. apply perm_swap.
+  - cbn [o_map]. intro H. apply Permutation_length_1 in H. vm_compute in H. discriminate. Qed.
+Print Assumptions C19_map_order_refuted.
+
+(* ---- modules without a `revision` attribute: the id comes from a hex file name, for sources only *)
+Theorem C19_legacy_ids : forall nm code r,
+  module_revision nm code = Some r ->
+  (rid_of code <> 0 /\ r = code) \/ (rid_of code = 0 /\ suffixb s_py nm = true /\ exists v, legacy_rev nm = Some v /\ r = mkcode v (tag_of code)).
+Proof. intros nm code r. unfold module_revision. destruct (N.eqb_spec (rid_of code) 0) as [E|E].
+  - destruct (legacy_rev nm) as [v|] eqn:L; [|discriminate]. intros [= <-]. right. repeat split; auto.
+    + unfold legacy_rev in L. destruct (suffixb s_py nm); [reflexivity|discriminate].
+    + eauto.
+  - intros [= <-]. left. auto. Qed.
+Print Assumptions C19_legacy_ids.
+Example C19_legacy_ids_nonvacuous :
+  module_revision [48;97;102;51;46;112;121] (mkcode 0 9) = Some (mkcode (1000 + 0x10af3) 9) /\      (* "0af3.py" *)
+  module_revision [48;97;102;51;46;112;121;99] (mkcode 0 9) = None /\                              (* "0af3.pyc" *)
+  module_revision [120;46;112;121] (mkcode 0 9) = None.                                            (* "x.py" *)
+Proof. repeat split; vm_compute; reflexivity. Qed.
+
 (* ---- an id defined by k files is reported k-1 times *)
 Theorem C19_duplicate_id : forall ids x, count x (dup_ids [] ids) = pred (count x ids).
 Proof. exact duplicate_id. Qed.
@@ -96,38 +150,38 @@ Print Assumptions C19_rev_file_names.
 
 (* ---- the witnesses of the three repaired findings now satisfy the property *)
 Definition T_shadow : node :=
-  Dir [(s_sd, Dir [(s_versions, Dir [(s_x_txt, File (Some 1)); (s_pycache, Dir [(s_x_cache, File (Some 2))])])])].
+  Dir [(s_sd, Dir [(s_versions, Dir [(s_x_txt, File (R 1 1)); (s_pycache, Dir [(s_x_cache, File (R 2 2))])])])].
 Definition i_blank : input :=
   mkInput SepNone (Some [118;49;32]) false false
-          (Dir [(s_sd, Dir []); (s_v1, Dir [(s_a_py, File (Some 1))]); (s_setup, File (Some 2))]).
-Definition T_pyo : node := Dir [(s_sd, Dir [(s_versions, Dir [(s_x_pyo, File (Some 1))])])].
+          (Dir [(s_sd, Dir []); (s_v1, Dir [(s_a_py, File (R 1 1))]); (s_setup, File (R 2 2))]).
+Definition T_pyo : node := Dir [(s_sd, Dir [(s_versions, Dir [(s_x_pyo, File (R 1 1))])])].
 Example C19_repaired_witnesses :
-  load_from T_pyo true false (flat_map (resolve_loc T_pyo) dflt) = Ok (mkObs [1] 0 []) /\
-  load_from T_shadow true false (flat_map (resolve_loc T_shadow) dflt) = Ok (mkObs [2] 0 []) /\
-  load_revisions i_blank = Ok (mkObs [1] 0 []) /\ expected i_blank = Ok [1].
+  load_from T_pyo true false (flat_map (resolve_loc T_pyo) dflt) = Ok (mkObs [mkcode 1 1] 0 [] [mkcode 1 1]) /\
+  load_from T_shadow true false (flat_map (resolve_loc T_shadow) dflt) = Ok (mkObs [mkcode 2 2] 0 [] [mkcode 2 2]) /\
+  load_revisions i_blank = Ok (mkObs [mkcode 1 1] 0 [] [mkcode 1 1]) /\ expected i_blank = Ok [mkcode 1 1].
 Proof. repeat split; vm_compute; reflexivity. Qed.
 
 (* ---- non-vacuity: a tree with source + compiled + __pycache__ + junk + file link + directory link, three locations
         (one of them the link), ":" separator with blanks around items, recursive, sourceless — satisfies every
         hypothesis, and the load is non-trivial *)
 Definition T_rich : node :=
-  Dir [(s_sd, Dir [(s_versions, Dir [(s_x_py, File (Some 1)); (s_x_pyc, File (Some 2)); (s_x_txt, File None);
-          (s_pycache, Dir [(s_x_cache, File (Some 3));
-                           ([121;46;99;112;121;116;104;111;110;45;51;49;50;46;112;121;99], File (Some 4))]);
+  Dir [(s_sd, Dir [(s_versions, Dir [(s_x_py, File (R 1 1)); (s_x_pyc, File (R 2 2)); (s_x_txt, File None);
+          (s_pycache, Dir [(s_x_cache, File (R 3 3));
+                           ([121;46;99;112;121;116;104;111;110;45;51;49;50;46;112;121;99], File (R 4 4))]);
           ([108;110;107;46;116;120;116], Link [s_v1; s_a_py])])]);
-       (s_v1, Dir [(s_a_py, File (Some 5)); ([98;46;112;121], File (Some 5))]);
+       (s_v1, Dir [(s_a_py, File (R 5 5)); ([98;46;112;121], File (R 5 6))]);
        ([108], Link [s_v1])].
 (* version_locations = "sd/versions:v1: l " *)
 Definition i_rich : input :=
   mkInput SepColon (Some [115;100;47;118;101;114;115;105;111;110;115;58;118;49;58;32;108;32]) true true T_rich.
 Example C19_main_nonvacuous :
-  inclass_C19 i_rich = true /\ load_revisions i_rich = Ok (mkObs [1; 5; 4; 5] 3 [5]) /\ expected i_rich = Ok [1; 4; 5; 5].
+  inclass_C19 i_rich = true /\ load_revisions i_rich = Ok (mkObs [mkcode 5 5; mkcode 1 1; mkcode 4 4; mkcode 5 6] 3 [5] [mkcode 1 1; mkcode 4 4; mkcode 5 6]) /\ expected i_rich = Ok [mkcode 1 1; mkcode 4 4; mkcode 5 5; mkcode 5 6].
 Proof. repeat split; vm_compute; reflexivity. Qed.
 Definition ps_rich : list (option path) := [Some [s_sd; s_versions]; Some [s_v1]; Some [[108]]].
 Example C19_exactly_once_nonvacuous :
   wf_tree T_rich = true /\
-  load_from T_rich true true (flat_map (resolve_loc T_rich) ps_rich) = Ok (mkObs [1; 5; 4; 5] 3 [5]) /\
-  expected_from T_rich true true (flat_map (resolve_loc T_rich) ps_rich) = Ok [1; 4; 5; 5].
+  load_from T_rich true true (flat_map (resolve_loc T_rich) ps_rich) = Ok (mkObs [mkcode 5 5; mkcode 1 1; mkcode 4 4; mkcode 5 6] 3 [5] [mkcode 1 1; mkcode 4 4; mkcode 5 6]) /\
+  expected_from T_rich true true (flat_map (resolve_loc T_rich) ps_rich) = Ok [mkcode 1 1; mkcode 4 4; mkcode 5 5; mkcode 5 6].
 Proof. repeat split; vm_compute; reflexivity. Qed.
 Example C19_dedupe_nonvacuous :
   incl [Some [[108]]] ps_rich /\
